@@ -262,3 +262,57 @@ func ZZH11Literals() {
 	}
 	sym.Cover("end")
 }
+
+// ZZH11Text: the same contract at text level: a short context followed by
+// <= K arbitrary bytes is read by the real lexer and parser in any mode; no
+// panic, error value iff error list non-empty, no nil entries, every error
+// range is the range of a token the lexer produces for this text, and an
+// error-free result compiles in every configuration (C11).
+func ZZH11Text() {
+	K := sym.Param("K", 3)
+	prefixes := []string{"", "x=", "f(a,", "{a\n", "x=\"", "x='\\", "x=`"} // the last three: inside a literal / an escape
+	pre := prefixes[sym.Choose("prefix", len(prefixes))]
+	n := sym.Choose("len", K+1)
+	src := pre + sym.String("s", n)
+	tolerant, smart := sym.Bool("tolerant"), sym.Bool("smart")
+	pb := parser.NewBuilder(lexer.NewBuilder())
+	if tolerant {
+		pb.WithTolerantMode(true)
+	}
+	if smart {
+		pb.WithSmartSemicolon(true)
+	}
+	p := pb.Build(src)
+	prog, err := p.ParseProgram()
+	errs := p.Errors()
+	sym.Observe("src", src, tolerant, smart, len(errs))
+	sym.Assert(prog != nil, "program-returned")
+	sym.Assert((err != nil) == (len(errs) > 0), "error-iff-error-list-nonempty")
+	d := DigestOf(prog, false)
+	sym.Assert(!d.NilEntry, "no-nil-entry-in-statement-lists")
+	if len(errs) > 0 {
+		// the tokens of this text
+		var toks []token.Token
+		lx := lexer.NewBuilder().Build(src)
+		for i := 0; i < len(src)+2; i++ {
+			t := lx.NextToken()
+			toks = append(toks, t)
+			if t.Type == token.EOF {
+				break
+			}
+		}
+		for _, e := range errs {
+			ok := false
+			for _, t := range toks {
+				ok = sym.Or(ok, sym.And(posEq(e.Range.Start, t.Start), posEq(e.Range.End, t.End)))
+			}
+			sym.Assert(ok, "error-range-is-a-token-range")
+		}
+	} else {
+		sym.Assert(!d.Missing, "mandatory-children-present-when-no-error")
+		if !d.Missing {
+			compileAll(prog)
+		}
+	}
+	sym.Cover("end")
+}
